@@ -25,7 +25,7 @@ pub struct Case {
     /// coefficient (eighths) of every variable: x, y, z, then free ones
     pub coeff: Vec<i8>,
     /// combination order: repeatedly combine pool[a] and pool[b] with op
-    /// (0-2 add, 3 min, 4 max) until one entry is left
+    /// (0-2 add, 3 min, 4 max, 5 atan2) until one entry is left
     pub combine: Vec<(u16, u16, u8)>,
     /// values (quarters) of every variable, per sample
     pub samples: Vec<Vec<i8>>,
@@ -60,6 +60,13 @@ fn vars_of(case: &Case) -> Vec<Var> {
     v
 }
 
+/// true if the combination uses atan2 (op 5): a call in native code, and a
+/// function whose interval at atan2(0, 0) is outside C03's claim
+fn has_call(case: &Case) -> bool {
+    let n = vars_of(case).len();
+    n >= 2 && case.combine.iter().cycle().take(n - 1).any(|c| c.2 % 6 == 5)
+}
+
 fn build(case: &Case) -> (Context, Node, Vec<Var>, bool) {
     let vars = vars_of(case);
     let mut ctx = Context::new();
@@ -75,6 +82,7 @@ fn build(case: &Case) -> (Context, Node, Vec<Var>, bool) {
         pool.push(ctx.constant(1.5));
     }
     let mut linear = true;
+    let call = has_call(case);
     let mut k = 0;
     while pool.len() > 1 {
         let (a, b, op) = case.combine[k % case.combine.len()];
@@ -83,7 +91,15 @@ fn build(case: &Case) -> (Context, Node, Vec<Var>, bool) {
         let na = pool.remove(ia);
         let ib = sel_index(b, pool.len());
         let nb = pool.remove(ib);
-        let n = match op % 5 {
+        let n = match op % 6 {
+            // with atan2 around, min / max are left out: the evaluators break
+            // ties between zeros of opposite sign differently (C02's stated
+            // tolerance) and atan2 turns the sign of a zero into +-pi
+            3 | 4 if call => ctx.add(na, nb).unwrap(),
+            5 => {
+                linear = false;
+                ctx.atan2(na, nb).unwrap()
+            }
             3 => {
                 linear = false;
                 ctx.min(na, nb).unwrap()
@@ -96,7 +112,18 @@ fn build(case: &Case) -> (Context, Node, Vec<Var>, bool) {
         };
         pool.push(n);
     }
-    (ctx, pool[0], vars, linear)
+    let mut root = pool[0];
+    if !linear && has_call(case) {
+        // every variable is used once more after the rest of the expression, so
+        // that all of them are live across the calls (register pressure in
+        // native code: a mix-up between two variables' registers shows up)
+        for (i, v) in vars.iter().enumerate() {
+            let n = ctx.var(*v);
+            let t = ctx.mul(n, 0.5 + i as f32).unwrap();
+            root = ctx.add(root, t).unwrap();
+        }
+    }
+    (ctx, root, vars, linear)
 }
 
 fn matrix(case: &Case) -> Option<Matrix4<f32>> {
@@ -326,7 +353,8 @@ fn run<F: MathFunction>(case: &Case, cx: &mut Cx) -> CheckResult {
         cx.ev.count("missing_and_mismatch_cases");
     }
     // ---- interval: the box around each sample must contain the value
-    for s in &case.samples {
+    // (not demanded of functions with atan2: C03 excludes atan2(0, 0))
+    for s in case.samples.iter().filter(|_| !has_call(case)) {
         let (x, y, z) = xyz(s);
         let b = |v: f32| Interval::new(v - 0.25, v + 0.5);
         let r = match &mat {
@@ -466,7 +494,7 @@ impl Prop for P {
             (any::<bool>(), any::<bool>(), any::<bool>()),
             prop_oneof![2 => 0u8..=4, 2 => 3u8..=12, 1 => 12u8..=32],
             vec(-3i8..=3, 36..=36),
-            vec((any::<u16>(), any::<u16>(), 0u8..5), 8..=40),
+            vec((any::<u16>(), any::<u16>(), prop_oneof![10 => 0u8..5, 1 => Just(5u8)]), 8..=40),
             vec(vec(-12i8..=12, 36..=36), 1..=9),
             0u8..=3,
             vec(any::<i8>(), 16..=16),
